@@ -7,9 +7,9 @@ SPEC = {
     "streams": [{"name": "value", "quick": 400, "thorough": 20000}],
     "rule": "a case = 2-5 `pv` ops, half of them repeated as `pvw` = the same scenario as a correctly signed whole transaction (own keys, "
             "native-script minting policies, fixtures::synth) through validate_txs; pv = (check_preservation_of_value of one of shelley/allegra/mary/alonzo/babbage/conway through verif_hooks on a "
-            "synthesized body + UTxO: 1-3 spent values, 1-2 produced values, fee, optional mint; 55% 'related' scenarios whose outputs "
-            "balance inputs+mint-fee exactly and are then perturbed by one unit / one asset half of the time, 15% sums crossing 2^63/2^64 "
-            "in either input order, 15% burns of assets no input holds balanced by an output of 2^64-n, 15% boundary-weighted junk) + a "
+            "synthesized body + UTxO: 1-3 spent values, 1-2 produced values, fee, optional mint; 17% burns around what the spent inputs hold (exactly, one past, twice, far beyond; the asset in one input or spread over every input, one or two policies, optionally next to a fresh mint of another asset of the same policy) with outputs that carry the exact rest or, for an over-burnt asset, what a clamping (0) / sign-dropping (|difference|) / wrapping (2^64 - n) / ignoring implementation would produce; 46% 'related' scenarios whose outputs "
+            "balance inputs+mint-fee exactly and are then perturbed by one unit / one asset half of the time, 12% sums crossing 2^63/2^64 "
+            "in either input order, 12% burns of assets no input holds balanced by an output of 2^64-n, 12% boundary-weighted junk) + a "
             "Byron check_fees op half of the time (outputs at, below and above inputs - min fee; a quarter of them with redeem-only inputs); the oracle recomputes every balance "
             "with 128-bit integers; distinct = sha1 of op text; non-trivial = the case has both an accepted and a rejected check",
     "trusted_base": ["Model/Value.lean is a hand transcription of the value arithmetic of utils.rs (add_values, add_minted_value, coerce_*, "
@@ -26,5 +26,7 @@ SPEC = {
                     "generated (their conversion only adds PositiveCoin unwraps)"],
     "explanation": "Self-tests run: (1) values_are_equal without the coin comparison (`if f != s` dropped) -> VIOLATION "
                    "(value-not-conserved ... ada); (2) the Conway None arm reverted to `i64::from(new) as u64` -> VIOLATION (also from "
-                   "corpus/C34); (3) harmless: add_same_policy_assets without the clone (entry API) -> quiet.",
+                   "corpus/C34); (3) harmless: add_same_policy_assets without the clone (entry API) -> quiet; "
+                   "(4) seeded C34-a (Conway burn through saturating_sub: burning more than the inputs hold clamps to 0) -> VIOLATION "
+                   "value-not-conserved era=conway asset with-burn with a concrete accepted transaction (inputs 31, mint -62, outputs 0).",
 }
